@@ -318,6 +318,69 @@ void array_op(Ctx& cx, A a)
         else
             rs.unsupported = true;
         break;
+    case A_ASSIGN_STRING_MODE:
+    case A_ASSIGN_STRING_RANGE:
+    if constexpr(!std::is_same<V, char>::value || is_ro<A>())
+        rs.unsupported = true;
+    else
+    {
+        const sbepp::eos_null mode = rq.arg2 == 0 ? sbepp::eos_null::all : rq.arg2 == 1 ? sbepp::eos_null::single : sbepp::eos_null::none;
+        const std::size_t len = (std::size_t)(rq.arg < a.size() ? rq.arg : a.size());
+        std::string text(len, 'q');
+        if(rq.sub == A_ASSIGN_STRING_MODE)
+        {
+            const char* cstr = text.c_str();
+            auto it = a.assign_string(cstr, mode);
+            rs.has_bits = true;
+            rs.bits = (u64)(it - a.begin());
+        }
+        else
+        {
+            auto it = a.assign_string(text, mode);
+            rs.has_bits = true;
+            rs.bits = (u64)(it - a.begin());
+        }
+        break;
+    }
+    case A_ASSIGN_ITER:
+        if constexpr(!is_ro<A>())
+        {
+            const std::size_t len = (std::size_t)(rq.arg < a.size() ? rq.arg : a.size());
+            std::vector<V> src(len, static_cast<V>(0x51));
+            auto it = a.assign(src.begin(), src.end());
+            rs.has_bits = true;
+            rs.bits = (u64)(it - a.begin());
+        }
+        else
+            rs.unsupported = true;
+        break;
+    case A_ASSIGN_IL:
+        if constexpr(!is_ro<A>())
+        {
+            if(a.size() >= 2)
+            {
+                auto it = a.assign({static_cast<V>(0x52), static_cast<V>(0x53)});
+                rs.has_bits = true;
+                rs.bits = (u64)(it - a.begin());
+            }
+            else
+                rs.unsupported = true;
+        }
+        else
+            rs.unsupported = true;
+        break;
+    case A_PARTIAL_FILL:
+        if constexpr(!is_ro<A>())
+        {
+            using size_type = typename A::size_type;
+            const std::size_t len = (std::size_t)(rq.arg < a.size() ? rq.arg : a.size());
+            auto it = a.assign((size_type)len, static_cast<V>(0x54));
+            rs.has_bits = true;
+            rs.bits = (u64)(it - a.begin());
+        }
+        else
+            rs.unsupported = true;
+        break;
     default: rs.unsupported = true;
     }
 }
